@@ -8,15 +8,15 @@ open Rx Rx.Gen.OnComplete
 def absOnComplete (g : OnCompleteObserver) : St1 := .onComplete g.func
 
 theorem tie_OnComplete_next (g : OnCompleteObserver) (v : Val) :
-    (OnCompleteObserver.next g v).map (fun r => (absOnComplete r.1, r.2)) = some (St1.onNext (absOnComplete g) v) := by
+    (OnCompleteObserver.next g v).map (fun r => (absOnComplete r.1, r.2)) = some (Rs.lift (St1.onNext (absOnComplete g) v)) := by
   rcases g with ⟨⟩ <;> rs_tie [OnCompleteObserver.next, absOnComplete, St1.onNext]
 
 theorem tie_OnComplete_error (g : OnCompleteObserver) (e : Err) :
-    (OnCompleteObserver.error g e).map (fun r => r.2) = some (St1.onError' (absOnComplete g) e).2 := by
+    (OnCompleteObserver.error g e).map (fun r => r.2) = some ((St1.onError' (absOnComplete g) e).2.map Rs.Ev.n) := by
   rcases g with ⟨⟩ <;> rs_tie [OnCompleteObserver.error, absOnComplete, St1.onError']
 
 theorem tie_OnComplete_complete (g : OnCompleteObserver) :
-    (OnCompleteObserver.complete g).map (fun r => r.2) = some (St1.onComplete' (absOnComplete g)).2 := by
+    (OnCompleteObserver.complete g).map (fun r => r.2) = some ((St1.onComplete' (absOnComplete g)).2.map Rs.Ev.n) := by
   rcases g with ⟨⟩ <;> rs_tie [OnCompleteObserver.complete, absOnComplete, St1.onComplete']
 
 
